@@ -1,8 +1,66 @@
 (* Props/C09.v — property theorems for C09 only; each closed by `exact` of a lemma proved
    elsewhere, with Print Assumptions beneath. *)
-From KV Require Import Bytes BytesProofs WalCodec.
+From KV Require Import Bytes BytesProofs WalCodec WalCodecProofs.
 Open Scope N_scope.
 
 Theorem C09_le_roundtrip : forall n x, x < 256 ^ N.of_nat n -> unle (le n x) = x.
 Proof. exact unle_le. Qed.
 Print Assumptions C09_le_roundtrip.
+
+Theorem C09_parse_payload : forall e,
+  wf_entry e = true -> parse_entry (payload e) = Some (canon e).
+Proof. exact parse_payload. Qed.
+Print Assumptions C09_parse_payload.
+
+Theorem C09_read_record_phys : forall ty d rest,
+  1 <= ty <= 4 -> len d <= 65535 ->
+  read_record (phys ty d ++ rest) = RecOk ty d rest.
+Proof. exact read_record_phys. Qed.
+Print Assumptions C09_read_record_phys.
+
+Theorem C09_read_entry_encode : forall e rest fuel,
+  wf_entry e = true -> (length (encode_entry e) <= fuel)%nat ->
+  read_entry fuel (encode_entry e ++ rest) [] = EntOk (canon e) rest [].
+Proof. exact read_entry_encode. Qed.
+Print Assumptions C09_read_entry_encode.
+
+Theorem C09_roundtrip : forall es,
+  forallb wf_entry es = true -> replay_file (encode_log es) = (map canon es, Clean).
+Proof. exact WalCodecProofs.C09_roundtrip. Qed.
+Print Assumptions C09_roundtrip.
+
+Theorem C09_dir : forall ess,
+  forallb (forallb wf_entry) ess = true ->
+  replay_dir (map encode_log ess) = map canon (concat ess).
+Proof. exact WalCodecProofs.C09_dir. Qed.
+Print Assumptions C09_dir.
+
+Theorem C09_from : forall s ess,
+  forallb (forallb wf_entry) ess = true ->
+  entries_from s (map encode_log ess) = filter (fun e => s <=? w_seq e) (map canon (concat ess)).
+Proof. exact WalCodecProofs.C09_from. Qed.
+Print Assumptions C09_from.
+
+Theorem C09_writer : forall ops s0 w0,
+  w0 = mkWal s0 [[]] -> forallb wop_wf ops = true ->
+  replay_dir (wl_files (fold_left wal_step ops w0)) = map canon (run_logged w0 ops).
+Proof. exact WalCodecProofs.C09_writer. Qed.
+Print Assumptions C09_writer.
+
+(* C08, proved with the writer model: see the remark on empty batches in WalCodecProofs.v *)
+Theorem C09_wal_monotone : forall ops w,
+  forallb no_explicit_seq ops = true ->
+  sorted_by N.lt (run_assigned w ops) /\
+  sorted_by N.le (run_rets w ops) /\
+  (forall pre post, ops = pre ++ post ->
+     wl_next w <= wl_next (fold_left wal_step pre w) /\
+     wl_next (fold_left wal_step pre w) <= wl_next (fold_left wal_step ops w)).
+Proof. exact C08_wal_monotone. Qed.
+Print Assumptions C09_wal_monotone.
+
+Theorem C09_wal_strict : forall ops w,
+  forallb no_explicit_seq ops = true ->
+  forallb (fun o => negb (is_empty_batch o)) ops = true ->
+  sorted_by N.lt (run_rets w ops).
+Proof. exact C08_wal_strict. Qed.
+Print Assumptions C09_wal_strict.
